@@ -71,6 +71,10 @@ func checkC14(w *World, r *Report) {
 	// accessor cannot fail for a list or a vector, whatever it holds
 	accessorTotalRule(w, r, e, "C14.accessor-total")
 	equalityReadsValOnlyRule(w, r, "C14.val-only")
+	// "values that are = stay =": what two values compare to is settled when they are built; a builtin that writes
+	// into a collection it was handed changes the answer of a comparison made before (shared with C02.write)
+	r.rule("C14.operands-intact", "no builtin writes into a collection it was handed (every map update, element store and append base is storage of the current activation): a value compared once compares the same ever after, and two results built from one base do not share what was added to each (shared with C02.write)")
+	ruleContainerWrites(w, r, e, "C14.operands-intact", func(fn *ssa.Function) bool { return runtimePkg(fnPkgPath(fn)) }, true)
 	r.rule("C14.go-equality", "Go's == / != on two lisp values is used only where neither can be a comparable struct that carries a source position (a Symbol read from text compares unequal to the same symbol read elsewhere): such values must go through Equal_Q's own case")
 	goEqualityRule(w, r, e, "C14.go-equality")
 	r.rule("C14.symmetric-shape", "every collection case compares the sizes of both operands before comparing elements, and the two sequence cases recurse through the same function element by element")
@@ -2043,6 +2047,8 @@ func checkC20(w *World, r *Report) {
 	}
 	exactArgsRule(w, r, e, "C20.exact-args", callFn, []*ssa.Function{args, argsCtx})
 	applyVerbatimRule(w, r, e, "C20.apply-verbatim")
+	// "invoked with exactly the arguments of the call": a function reached through the apply builtin is one too
+	applyArgsRule(w, r, e, "C20.apply-args")
 	r.rule("C20.chain-kept", "wherever the library puts an error into a new message it does so with %w: the error a bound function returned, or the one made from its panic, stays reachable with errors.Is / errors.As through every caller of bound functions (evaluator, apply, the reader's constructors)")
 	ruleWrapAs(w, r, "C20.chain-kept")
 	adapterFor := map[int64]*ssa.Function{0: nilnil, 1: nilerr, 2: reserr}
